@@ -1,11 +1,14 @@
 //! C18 correspondence harness: calls the live CpuContext / MinidumpContext methods.
-//!   <variant> <name> <validity> <value> [<context_flags>]
+//!   <variant> <name> <validity> <value> [<context_flags>|- [<fill>]]
 //! variant: MinidumpRawContext variant (X86 Ppc Ppc64 Amd64 Sparc Arm Arm64 OldArm64 Mips)
 //! name: register name, `-` for the empty string
 //! validity: `A` (All) or `S:<n1>,<n2>,...` (Some(set); `S:` is the empty set; `-` = empty name)
 //! value: decimal, below 2^width
 //! context_flags: decimal; written into the context's `context_flags` field (truncated to its width)
-//!   before anything else happens (absent = the pattern value)
+//!   before anything else happens (absent or `-` = the base value)
+//! fill: decimal 32-bit word; when present the base context is read from bytes in which EVERY 32-bit word is this
+//!   word (so every integer field, whichever a method might consult - cpsr, eflags, context_flags, ... - holds that
+//!   bit pattern, repeated to the field's width); absent = the pattern below
 //!
 //! The context starts from a byte pattern read through the struct's own `Pread` impl (every
 //! field holds a distinct value with top byte 0x5A, no field is named here); then
@@ -23,6 +26,8 @@
 //!   cr  CpuContext::registers() names        cv  CpuContext::valid_registers(validity) names, sorted (P if it panicked)
 //!   sz  register_size()                      fm  format_register(name) (P if it panicked; B-relative like ga)
 //!   mg  MinidumpContext::get_register(name) with the case's validity: value / B / N / P
+//!   sa / ia  1 iff get_stack_pointer / get_instruction_pointer equals get_register_always(<sp / ip register name>)
+//!            widened to u64, both before and after the set
 //!   | RG=<T::REGISTERS> | spm=<memoize(sp name)> | ipm=<memoize(ip name)> | sm=<memoize of each validity member>
 use minidump::{CpuContext, MinidumpContext, MinidumpContextValidity, MinidumpRawContext};
 use minidump_common::format as md;
@@ -43,11 +48,11 @@ fn name_of(t: &str) -> String {
     }
 }
 
-fn pattern() -> Vec<u8> {
-    // 32-bit word j = 0x5A000000 + j (little endian): distinct u32 and u64 fields
+fn pattern(fill: Option<u32>) -> Vec<u8> {
+    // 32-bit word j = 0x5A000000 + j (little endian): distinct u32 and u64 fields; or the fill word everywhere
     let mut v = Vec::with_capacity(8192);
     for j in 0u32..2048 {
-        v.extend_from_slice(&(0x5A00_0000u32 + j).to_le_bytes());
+        v.extend_from_slice(&fill.unwrap_or(0x5A00_0000u32 + j).to_le_bytes());
     }
     v
 }
@@ -81,6 +86,9 @@ where
     let before_named: Option<u64> = guard(|| base.get_register_always(name).into());
     let before_sp = before_md.get_stack_pointer();
     let before_ip = before_md.get_instruction_pointer();
+    let named = |c: &T, n: &'static str| -> Option<u64> { guard(|| c.get_register_always(n).into()) };
+    let sa_before = Some(before_sp) == named(&base, base.stack_pointer_register_name());
+    let ia_before = Some(before_ip) == named(&base, base.instruction_pointer_register_name());
 
     let mut ctx = base.clone();
     let st = ctx.set_register(name, val).is_some();
@@ -132,8 +140,11 @@ where
     let mdfm_same = guard(|| mdc.format_register(name)) == guard(|| ctx.format_register(name));
     let md_ga_same = guard(|| mdc.get_register_always(name)) == ga;
 
+    let sa = sa_before && Some(sp) == named(&ctx, ctx.stack_pointer_register_name());
+    let ia = ia_before && Some(ip) == named(&ctx, ctx.instruction_pointer_register_name());
+
     let common = format!(
-        "mz={};st={};ga={};gA={};gr={};iv={};ch={};sp={};ip={};spn={};ipn={};rn={};vn={};cr={};cv={};sz={};fm={};mg={}",
+        "mz={};st={};ga={};gA={};gr={};iv={};ch={};sp={};ip={};spn={};ipn={};rn={};vn={};cr={};cv={};sz={};fm={};mg={};sa={};ia={}",
         mz.unwrap_or("N"),
         st as u8,
         show(ga, before_named),
@@ -152,6 +163,8 @@ where
         mdc.register_size(),
         fm,
         opt_show(mg),
+        sa as u8,
+        ia as u8,
     );
     let sm: Vec<String> = members
         .iter()
@@ -176,7 +189,8 @@ fn run(line: &str) -> String {
     let name = name_of(t.str());
     let vspec = t.str();
     let value = t.u64();
-    let flags: Option<u64> = t.opt().map(|f| f.parse().expect("flags"));
+    let flags: Option<u64> = t.opt().and_then(|f| if f == "-" { None } else { Some(f.parse().expect("flags")) });
+    let fill: Option<u32> = t.opt().map(|f| f.parse().expect("fill"));
     let mut members: Vec<String> = vec![];
     let valid = if vspec == "A" {
         MinidumpContextValidity::All
@@ -192,7 +206,7 @@ fn run(line: &str) -> String {
         }
         MinidumpContextValidity::Some(set)
     };
-    let bytes = pattern();
+    let bytes = pattern(fill);
     macro_rules! go {
         ($ty:ty, $wrap:path) => {{
             let mut base: $ty = bytes.pread_with(0, scroll::LE).expect("context from pattern bytes");
